@@ -921,6 +921,34 @@ func (k *kase) exec(op string) string {
 				k.nonTrivial()
 			}
 		}
+	case "findfail":
+		t := k.readers[num(ws[1])]
+		key := uint32(num(ws[2]))
+		f := int64(num(ws[3]))
+		table.VerifC02FailOpenOnce(version.Table(table.FileNumber(f)))
+		_, err := t.snap.FindReaders(key)
+		table.VerifC02ClearOpenFaults()
+		if err == nil {
+			res = "ok-unexpected"
+			k.broken = "injected open fault did not fire"
+		} else {
+			res = "err"
+			// the readers opened before the failing table stay recorded in the snapshot (Close releases
+			// them): they are retained readers of this snapshot
+			lvl := version.VerifC02Level(t.ver, f)
+			ents := table.VerifC02CacheEntries(kv.VerifC02Cache(k.store))
+			for _, fm := range t.ver.GetAllFiles() {
+				n := fm.GetFileNumber().Int64()
+				if key < fm.GetMinKey() || key > fm.GetMaxKey() || version.VerifC02Level(t.ver, n) >= lvl {
+					continue
+				}
+				for _, e := range ents {
+					if en, _ := tableNo(e.FileName); en == n {
+						t.held = append(t.held, heldReader{file: n, rd: e.Reader})
+					}
+				}
+			}
+		}
 	case "close":
 		t := k.readers[num(ws[1])]
 		t.closing = true
@@ -1326,7 +1354,8 @@ const (
 	nDirectCC = 16 // overlapping committers (12 scheduled through the mutex, 4 released together)
 	nDirectAL = 4  // allocations while a commit is between reading and storing the file counter
 	nDirectRU = 4  // real rollup job with an absent target store after the marked tables were compacted away
-	nDirected = nWitness + nDirectDO + nDirectCC + nDirectAL + nDirectRU
+	nDirectFF = 4  // FindReaders failing at an uncached table while another snapshot retains an earlier one
+	nDirected = nWitness + nDirectDO + nDirectCC + nDirectAL + nDirectRU + nDirectFF
 )
 
 func (k *kase) lastJob() string { return k.jobs[len(k.jobs)-1].name }
@@ -1461,6 +1490,75 @@ func (k *kase) directRollup(rng *rand.Rand, d int) {
 	k.exec("spawn delobs")
 	k.finish(k.lastJob())
 	k.exec("rollupjob")
+	k.drain(rng)
+}
+
+// failTarget: a key and a table of reader t's version such that FindReaders(key) opens at least one
+// table of a lower level first and then has to open this one, which is the only covering table
+// of its level and is not mapped.
+func (k *kase) failTarget(t *thr) (uint32, int64, bool) {
+	cached := map[int64]bool{}
+	for _, e := range table.VerifC02CacheEntries(kv.VerifC02Cache(k.store)) {
+		n, _ := tableNo(e.FileName)
+		cached[n] = true
+	}
+	for key := uint32(0); key < numKeys; key++ {
+		byLevel := map[int][]int64{}
+		for _, fm := range t.ver.GetAllFiles() {
+			if key < fm.GetMinKey() || key > fm.GetMaxKey() {
+				continue
+			}
+			n := fm.GetFileNumber().Int64()
+			byLevel[version.VerifC02Level(t.ver, n)] = append(byLevel[version.VerifC02Level(t.ver, n)], n)
+		}
+		if len(byLevel[0]) >= 1 && len(byLevel[1]) == 1 && !cached[byLevel[1][0]] {
+			return key, byLevel[1][0], true
+		}
+	}
+	return 0, 0, false
+}
+
+// directFindFail: reader B retains a level-0 table; reader A's FindReaders of a key covered by that
+// table and by a level-1 table fails at the level-1 table (injected open fault); A closes; the
+// cache is cleaned up; B reads on.
+func (k *kase) directFindFail(rng *rand.Rand, d int) {
+	k.exec(fmt.Sprintf("spawn flush 0:%d 1:%d", k.nextTok, k.nextTok+1))
+	k.nextTok += 2
+	k.finish(k.lastJob())
+	k.exec(fmt.Sprintf("spawn flush 0:%d 2:%d", k.nextTok, k.nextTok+1))
+	k.nextTok += 2
+	k.finish(k.lastJob())
+	k.exec("spawn compact")
+	k.finish(k.lastJob())
+	for n := 1 + d%2; n > 0; n-- {
+		k.exec(fmt.Sprintf("spawn flush 0:%d 3:%d", k.nextTok, k.nextTok+1))
+		k.nextTok += 2
+		k.finish(k.lastJob())
+	}
+	k.cleanup()
+	k.exec("acquire 0") // B
+	k.exec("acquire 1") // A
+	k.nReaders = 2
+	b, a := k.readers[0], k.readers[1]
+	key, f, ok := k.failTarget(a)
+	if ok {
+		// B retains every level-0 table covering the key
+		for _, fm := range b.ver.GetAllFiles() {
+			n := fm.GetFileNumber().Int64()
+			if version.VerifC02Level(b.ver, n) == 0 && key >= fm.GetMinKey() && key <= fm.GetMaxKey() {
+				k.exec(fmt.Sprintf("getr 0 %d", n))
+			}
+		}
+		k.exec(fmt.Sprintf("findfail 1 %d %d", key, f))
+		if d >= 2 {
+			k.exec(fmt.Sprintf("findfail 1 %d %d", key, f)) // the fault repeats
+		}
+	}
+	k.exec("close 1")
+	k.finish("r1")
+	k.cleanup()
+	k.exec(fmt.Sprintf("find 0 %d", key))
+	k.cleanup()
 	k.drain(rng)
 }
 
@@ -1620,6 +1718,12 @@ func (k *kase) random(rng *rand.Rand, steps int) {
 			r := or[rng.Intn(len(or))]
 			t := k.readers[r]
 			files := t.ver.GetAllFiles()
+			if rng.Intn(6) == 0 {
+				if key, f, ok := k.failTarget(t); ok {
+					k.exec(fmt.Sprintf("findfail %d %d %d", r, key, f))
+					continue
+				}
+			}
 			switch y := rng.Intn(10); {
 			case y < 3:
 				k.exec(fmt.Sprintf("find %d %d", r, rng.Intn(numKeys)))
@@ -1759,6 +1863,8 @@ func (area) Run(c *core.Ctx) error {
 		if i >= nDirected {
 			threshold = 1 + rng.Intn(3)
 			rollupOn = rng.Intn(3) == 0
+		} else if i >= nWitness+nDirectDO+nDirectCC+nDirectAL+nDirectRU {
+			rollupOn = false
 		} else if i >= nWitness+nDirectDO+nDirectCC+nDirectAL {
 			rollupOn = true
 		} else if i >= nWitness+nDirectDO+nDirectCC {
@@ -1791,11 +1897,16 @@ func (area) Run(c *core.Ctx) error {
 			k.directAlloc(rng, i-nWitness-nDirectDO-nDirectCC)
 			c.NonTrivial()
 			c.Branch("directed:allocations-inside-commit")
-		} else if i < nDirected {
+		} else if i < nWitness+nDirectDO+nDirectCC+nDirectAL+nDirectRU {
 			k.racy = racy
 			k.directRollup(rng, i-nWitness-nDirectDO-nDirectCC-nDirectAL)
 			c.NonTrivial()
 			c.Branch("directed:rollup-job-absent-target")
+		} else if i < nDirected {
+			k.racy = racy
+			k.directFindFail(rng, i-nWitness-nDirectDO-nDirectCC-nDirectAL-nDirectRU)
+			c.NonTrivial()
+			c.Branch("directed:failing-FindReaders")
 		} else {
 			k.racy = racy
 			steps := 50 + rng.Intn(70)
